@@ -194,19 +194,27 @@ func clientOutcome(obs any) string {
 	return fmt.Sprintf("acc=%d after=%d conf=%d rej=%d closeErr=%v", r.Accepted, r.AfterCloseConns, len(r.Confirmed), len(r.Rejected), r.CloseErr != "")
 }
 
+// bound 3 (thorough) only for the small narrow scenarios; the larger ones stay at 2
+func narrowBound(b, forwards, listeners int) int {
+	if b > 2 && (forwards > 2 || listeners > 1) {
+		return 2
+	}
+	return b
+}
+
 func run(c *vf.Ctx) {
 	bound := 2
 	if c.Thorough {
 		bound = 3
 	}
-	c.Rule(fmt.Sprintf("every interleaving with <=%d deviations from the default schedule of each scenario (listeners x forwards x accepts-before-close), real forwardList/handleChannels goroutines under the cooperative scheduler; non-trivial = scenario with more than one execution; states = distinct end observations", bound))
+	c.Rule(fmt.Sprintf("every interleaving with <=%d deviations (narrow harness; <=2 for scenarios with >2 forwards or 2 listeners; real-Client scenarios <=1 quick, <=2 thorough) from the default schedule of each scenario (listeners x forwards x accepts-before-close; real Client: tcp/unix x cancel reply ok/failure x forwards x accepts x late forward), real forwardList/handleChannels/Client goroutines under the cooperative scheduler; non-trivial = scenario with more than one execution; states = distinct end observations", bound))
 	c.Assume("package ssh is data-race free (checked by a separate free-running -race pass, not by this check)")
 	c.Assume("stub NewChannel values stand in for mux channels; Accept()/Reject() of the stub only record the call")
 	var scs []schedx.Scenario
 	for _, s := range scenarios(c.Thorough) {
 		s := s
 		scs = append(scs, schedx.Scenario{
-			Name: s.name, Bound: bound,
+			Name: s.name, Bound: narrowBound(bound, len(s.fs), len(s.ls)),
 			Body:          func() any { return ssh.VerifC37Narrow(s.ls, s.fs) },
 			Check:         check(s),
 			Outcome:       outcome,
@@ -220,9 +228,9 @@ func run(c *vf.Ctx) {
 				for A := 0; A <= F; A++ {
 					for _, late := range []bool{false, true} {
 						p := ssh.VerifC37ClientParams{Unix: unix, Forwards: F, Strangers: 1, Accepts: A, CancelOK: cancelOK, LateForward: late}
-						cb := bound
-						if cb > 1 && !c.Thorough {
-							cb = 1
+						cb := 1
+						if c.Thorough {
+							cb = 2
 						}
 						scs = append(scs, schedx.Scenario{
 							Name: fmt.Sprintf("client unix=%v cancelOK=%v F=%d A=%d late=%v", unix, cancelOK, F, A, late), Group: fmt.Sprintf("real Client unix=%v", unix), Bound: cb,
